@@ -95,6 +95,7 @@ theorem partitions_are_partitions {B : Type} (xs : List B) :
 
 example : partitions [1, 2, 3] = [[[1], [2], [3]], [[1], [2, 3]], [[1, 2], [3]], [[1, 2, 3]]] := by decide
 
+
 /-! ## IPC `StreamDecoder` -/
 
 section ipc
